@@ -3,6 +3,7 @@
 package verifkit
 
 import (
+	"sync"
 	"bytes"
 	"crypto/sha256"
 	"encoding/binary"
@@ -97,8 +98,16 @@ type Block struct {
 
 type Tree struct {
 	Genesis *Block
-	ByHash  map[bitcoin.Hash32]*Block
+	ByHash  map[bitcoin.Hash32]*Block // single-goroutine engines read it directly; others use Get
 	salt    uint32
+	mu      sync.RWMutex // Extend vs Get (L1 engine: peers in goroutines, the test extends the tree)
+}
+
+// Get is the goroutine-safe lookup.
+func (t *Tree) Get(h bitcoin.Hash32) *Block {
+	t.mu.RLock()
+	defer t.mu.RUnlock()
+	return t.ByHash[h]
 }
 
 // MainNetGenesisHeader equals the header the block repository creates for an empty store.
@@ -129,6 +138,8 @@ func Coinbase(height int, salt uint32) *wire.MsgTx {
 
 // Extend adds a block with a coinbase plus txs on top of parent.
 func (t *Tree) Extend(parent *Block, txs []*wire.MsgTx) *Block {
+	t.mu.Lock()
+	defer t.mu.Unlock()
 	t.salt++
 	all := append([]*wire.MsgTx{Coinbase(parent.Height+1, t.salt)}, txs...)
 	ids := make([]bitcoin.Hash32, len(all))
